@@ -490,7 +490,7 @@ func (e *evalCtx) fieldStep(cur sval, idx int) sval {
 		if _, isSl := ft.Underlying().(*types.Slice); isSl {
 			// representation invariant of every slice stored in the heap
 			x := v.term
-			e.t.assume(fmt.Sprintf("(and (<= 0 (sl_off %s)) (<= 0 (sl_len %s)) (<= (sl_len %s) (sl_cap %s)) (<= 0 (sl_arr %s)) (<= (sl_arr %s) %s))", x, x, x, x, x, x, e.t.h.get(st, "alloc")))
+			e.t.assume(fmt.Sprintf("(and (<= 0 (sl_off %s)) (<= 0 (sl_len %s)) (<= (sl_len %s) (sl_cap %s)) (<= (sl_cap %s) 140737488355328) (<= 0 (sl_arr %s)) (<= (sl_arr %s) %s))", x, x, x, x, x, x, x, e.t.h.get(st, "alloc")))
 		}
 		return v
 	}
